@@ -79,6 +79,10 @@ def st_case():
         'async': st.booleans(),
         'history': st.lists(step, max_size=8),
         'end': st.sampled_from(['consumer-unsubscribes', 'provider-sends-end', 'both']),
+        # the hosted services name a wsdl location on another server (same path): None | 'http' | 'https'
+        'wsdl_elsewhere': st.sampled_from([None, None, 'http', 'https']),
+        # the peer spells the provider's address in wsa:To of its eventing requests with the http scheme
+        'to_http': st.booleans(),
     })
 
 
@@ -111,6 +115,33 @@ def run_case(case):  # noqa: C901, PLR0912, PLR0915
         if not tls_client and tls_server:
             raise ConnectionResetError('plaintext request to a TLS port (emulated)')
     net.connect_hook = connect_hook
+    # no party of this world owns a real socket: whatever connects one has left the soap clients (and their TLS context)
+    import socket
+    real_connects = []
+    saved_socket = (socket.socket.connect, socket.socket.connect_ex, socket.create_connection)
+
+    def refuse(*a, **_kw):
+        real_connects.append(a[-1] if a else None)
+        raise ConnectionRefusedError('vf: no real connections in this world')
+
+    def refuse_create(address, *_a, **_kw):
+        real_connects.append(address)
+        raise ConnectionRefusedError('vf: no real connections in this world')
+    socket.socket.connect, socket.socket.connect_ex, socket.create_connection = refuse, refuse, refuse_create
+    if case.get('wsdl_elsewhere'):
+        def elsewhere(entry, response):
+            if entry.action and entry.action.endswith('GetMetadata/Request'):
+                return re.sub(rb'(<[A-Za-z0-9]*:?Location[^>]*>)https?://[^/<]+', lambda mo: mo.group(1) + (
+                    case['wsdl_elsewhere'].encode() + b'://127.0.0.1:9'), response)
+            return response
+        net.response_rewriter = elsewhere
+    if case.get('to_http'):
+        def spell_http(entry):
+            to_provider = world is not None and entry.netloc.endswith(f':{world.provider_server.server_port}')
+            if to_provider and entry.action and '/eventing/' in entry.action and b':To>https://' in (entry.request or b''):
+                return ('rewrite', entry.request.replace(b':To>https://', b':To>http://', 1))
+            return None
+        net.interceptor = spell_http
     saved = (providerimpl.HttpServerThreadBase, consumerimpl.HttpServerThreadBase)
     providerimpl.HttpServerThreadBase = consumerimpl.HttpServerThreadBase = OwnServer
     del OwnServer.created[:]
@@ -203,7 +234,9 @@ def run_case(case):  # noqa: C901, PLR0912, PLR0915
             tls_ports[str(provider_port)] = 'provider'
         if consumer_is_tls and consumer_port is not None:
             tls_ports[str(consumer_port)] = 'consumer'
-        blobs = [(f'{e.kind} {(e.action or "").split("/")[-1]} request', e.request) for e in net.log]
+        # (a request the harness re-spelled - wsa:To with the http scheme - is the peer's text, not the library's)
+        blobs = [(f'{e.kind} {(e.action or "").split("/")[-1]} request', e.request) for e in net.log
+                 if not (isinstance(e.error, tuple) and e.error and e.error[0] == 'rewrite')]
         blobs += [(f'response to {(e.action or "").split("/")[-1]}', e.response) for e in net.log if e.response]
         for _epr, _types, _scopes, x_addrs in world.wsd.published:
             blobs.append(('published XAddrs', ' '.join(x_addrs).encode()))
@@ -221,9 +254,16 @@ def run_case(case):  # noqa: C901, PLR0912, PLR0915
                 out.append((f'{P}/own-server-without-tls-context/{who}', f'{_cfg(case)}: the {who} started its HTTP server '
                                                                         f'with ssl_context={srv.ssl_context}'))
             _ = cont
+        if real_connects and (provider_is_tls or consumer_is_tls):
+            out.append((f'{P}/connection-outside-the-soap-clients',
+                        f'{_cfg(case)} wsdl_elsewhere={case.get("wsdl_elsewhere")}: a real socket was connected to '
+                        f'{real_connects[:2]} - not through a soap client with the TLS client context'))
     finally:
         providerimpl.HttpServerThreadBase, consumerimpl.HttpServerThreadBase = saved
+        socket.socket.connect, socket.socket.connect_ex, socket.create_connection = saved_socket
         net.connect_hook = None
+        net.response_rewriter = None
+        net.interceptor = None
         if world is not None:
             world.close()
     # de-duplicate
